@@ -189,23 +189,18 @@ impl Mutable for Name {
 impl Union<Name> for Name {
     fn union(&self, name: &Name) -> Self {
         let names: HashSet<TrueName> = self.names.union(&name.names).cloned().collect();
-        let names: HashSet<TrueName> = if names.iter().any(TrueName::is_null) && names.len() > 1 {
-            names
-                .iter()
-                .filter(|n| !n.is_null())
-                .map(TrueName::as_nullable)
-                .collect()
-        } else {
-            names
-        };
-
+        // None, or a nullable member, makes the union as a whole nullable, so all its members
+        let nullable = names.iter().any(|n| n.is_null() || n.is_nullable());
         Name {
-            // a nullable member makes its non-nullable twin redundant
-            names: names
-                .iter()
-                .filter(|n| n.is_nullable() || !names.contains(&n.as_nullable()))
-                .cloned()
-                .collect(),
+            names: if nullable && names.iter().any(|n| !n.is_null()) {
+                names
+                    .iter()
+                    .filter(|n| !n.is_null())
+                    .map(TrueName::as_nullable)
+                    .collect()
+            } else {
+                names
+            },
             is_interchangeable: self.is_interchangeable || name.is_interchangeable,
         }
     }
